@@ -378,11 +378,14 @@ class BoundedCtx(NumCtx):
         self.seed = seed
         self.only = None  # replay: evaluate only this witness key
 
-    def ensure(self, name, b, excuse=None, witness=None, **info):
+    def ensure(self, name, b, excuse=None, witness=None, prop=None, **info):
         try:
             ok = bool(_np.all(b))
         except Exception:
             ok = False
+        if prop is not None:
+            self.clause_prop = getattr(self, "clause_prop", {})
+            self.clause_prop[name] = prop
         c = self.counts.setdefault(name, [0, 0])
         c[0] += 1
         if excuse is not None and excuse[0] in os.environ.get("GVC_OPEN_FINDINGS", "").split(","):
@@ -410,7 +413,8 @@ def run_bounded(case_id, tier="quick", seed=0):
         summary["error"] = "bounded harness crashed: " + traceback.format_exc()[-1500:]
     for name, (n, ok) in ctx.counts.items():
         w = ctx.fail.get(name)
-        summary["obligations"].append(dict(name=name, prop=case.prop, props=list(case.props) if case.share else [case.prop], path=0, status="proved" if n == ok else "refuted", backend="bounded-enumeration",
+        cp = getattr(ctx, "clause_prop", {}).get(name)
+        summary["obligations"].append(dict(name=name, prop=cp or case.prop, props=[cp] if cp else (list(case.props) if case.share else [case.prop]), path=0, status="proved" if n == ok else "refuted", backend="bounded-enumeration",
                                            seconds=0.0, detail="%d/%d inputs" % (ok, n), model=None, witness=repr(w)[:600] if w is not None else None,
                                            goal="holds on every enumerated input", npc=0, pc=[], exception=None, excuse=getattr(ctx, "excused", {}).get(name), evaluations=n))
     summary["wall_s"] = round(time.time() - t0, 3)
